@@ -58,3 +58,26 @@ Example C03_nonvacuous :
   outer_rows 1 [1; 1] [sB; [ ([VNull], [RVal (VInt 9)]); ([VStr "y"], [RVal (VInt 4)]) ]] =
     [ ([VStr "x"], [RVal (VInt 2); RVal VNull]); ([VStr "y"], [RVal (VInt 3); RVal (VInt 4)]); ([VNull], [RVal VNull; RVal (VInt 9)]) ].
 Proof. exact two_way_example. Qed.
+
+Require V.Model.MultiFactShape V.Gen.MultiFactShape_gen V.Proofs.C03_shape_proofs.
+(* THE STATEMENT OF THE MULTI-FACT FORM, regenerated: Gen/MultiFactShape_gen.v holds the structure of what SQLGenerator._generate_with_preaggregation builds on 260 scripted queries
+   (metrics of two / three models, a name shared by two models, a graph-level name among them, metrics of one model only; no dimensions, one, one time dimension at two granularities
+   in either order, dimensions of three models; row filters on metric models and on other models, metric-value filters, segments; ORDER BY / LIMIT incl. 0 / OFFSET; custom aliases),
+   extracted from generator.py on every run by executing the method's AST (fail closed, validated against CPython).  Model/MultiFactShape.mf_build builds the same structure on
+   every row; and for ANY query it builds: one sub-query per metric model, all asked for the same dimensions and the same row filters, every later sub-query joined with the FIRST
+   one on ALL dimension columns of the query -- one NULL-safe condition per requested reference, the granularity being part of the column -- or cross-joined when there are none.
+   That is the join Model/MultiFact.outer_rows (C03_union, C03_values_first, C03_values_second, C03_full_outer) describes. *)
+Theorem C03_statement_table : forallb V.Proofs.C03_shape_proofs.mfshape_row_ok V.Gen.MultiFactShape_gen.mfshape_rows = true.
+Proof. exact V.Proofs.C03_shape_proofs.mfshape_table_ok. Qed.
+Theorem C03_joins_on_all_dimension_columns : forall metrics dims filters segments order_by limit offset aliases ctes subs sels first joins w o l f,
+  V.Model.MultiFactShape.mf_build (metrics, dims, filters, segments, order_by, limit, offset) aliases = V.Model.MultiFactShape.Shape ctes subs sels first joins w o l f ->
+  ctes = map (fun m => (m ++ "_preagg")%string) (V.Model.MultiFactShape.metric_models_of metrics) /\
+  first = match ctes with c :: _ => c | [] => ""%string end /\
+  joins = map (fun c => match dims with
+                        | [] => (false, c, [])
+                        | _ => (true, c, map (fun d => (first ++ "." ++ V.Model.MultiFactShape.dim_col d ++ "=" ++ c ++ "." ++ V.Model.MultiFactShape.dim_col d)%string) dims) end) (tl ctes).
+Proof. exact V.Proofs.C03_shape_proofs.joins_on_all_dimension_columns. Qed.
+Theorem C03_sub_queries_share : forall inp aliases ctes subs sels first joins w o l f,
+  V.Model.MultiFactShape.mf_build inp aliases = V.Model.MultiFactShape.Shape ctes subs sels first joins w o l f ->
+  forall s1 s2, In s1 subs -> In s2 subs -> snd (fst s1) = snd (fst s2) /\ snd s1 = snd s2.
+Proof. exact V.Proofs.C03_shape_proofs.sub_queries_share_dimensions_and_filters. Qed.
